@@ -203,6 +203,10 @@ pub fn gen_case(c: &mut Choices) -> Case {
             "Pick<Imported, \"a\">",
             "Unknown1",
             "Readonly<{ a: string }>",
+            // nothing is declared under these indices
+            "{ a: { b: string } }[\"missing\"]",
+            "({ a: { b: string } })[\"a\"][\"zz\"]",
+            "{ a: { b: string } }[\"a\" | \"zz\"][\"nope\"]",
         ]);
         let src = assemble_dc(&mut g, t, "", false, "import { Imported } from \"other\";\n");
         let mut case = Case::new(src, "tsx", Some(RT.into()));
